@@ -537,6 +537,12 @@ def instrumented_cases(run, terms, cases):
                     mks, uks = random_kinds(rng, lam + 1, glen)
                     instrumented_case(run, "varOr", objs, fits, pop_idx, lam, cxpb, mutpb, mks, uks,
                                       RandomProxy(rng.getrandbits(32), script), terms, cases)
+    # the call on which the unrepaired code returned the parents themselves (fix 80d9b4e), replayed on every run
+    objs, fits = [([1, 2, 3], 0), ([4, 5, 6], 1), ([7, 8, 9], 2)], [[1], [2], None]
+    out = instrumented_case(run, "varOr", objs, fits, [0, 1, 2], 6, 0.0, 0.0, [], [],
+                            RandomProxy(rng.getrandbits(32)), terms, cases)
+    run.extra_cov["fixed_defect_witness"] = ("varOr(pop, toolbox, 6, 0.0, 0.0) -> %s" %
+                                             (cases[-1]["outcome"],))
     # negative lambda, failed assertion
     for lam, cxpb, mutpb in [(-1, 0.5, 0.5), (-3, 1.0, 0.0), (2, 0.75, 0.5), (0, 1.0, 0.5), (3, 0.6, 0.41)]:
         objs, fits = random_heap(rng, 3, 3)
